@@ -210,6 +210,14 @@ fn gen_c15(seed: u64, idx: usize, _tier: Tier) -> C15Scenario {
             }
         }
     }
+    // one world in eight leaves the server ports to their documented defaults (derived from a draw made above, so
+    // that the rest of the scenario is what it was)
+    let mut spec = spec;
+    match script.sched_seed % 16 {
+        0 => spec.default_ports = 1,
+        1 => spec.default_ports = 2,
+        _ => {}
+    }
     C15Scenario { run: RunScenario { spec, mode, script, hang_ms: default_hang_ms() }, listener }
 }
 
@@ -515,7 +523,7 @@ fn gen_c20(seed: u64, idx: usize, tier: Tier) -> C20Scenario {
         }
         targets.push(TargetSpec { path, ..Default::default() });
     }
-    let spec = WorldSpec { targets, cmd_files, files: vec![], sequences: vec![], max_retained_runs: 2, gitignore: vec![], git: false, lock_host: None };
+    let spec = WorldSpec { targets, cmd_files, files: vec![], sequences: vec![], max_retained_runs: 2, gitignore: vec![], git: false, lock_host: None, default_ports: 0 };
     let mut script = RunScript::simple(RunOpts { commands: cmds.clone(), ..Default::default() });
     let per_task = rng.range(6, 20);
     // one scenario in eight: a long stall of the listener while more is written than the connection can
